@@ -8,7 +8,7 @@ from .common import asm_not_pure, SIZES, adt, bv, fn_site, inner, same, size_ty,
 
 LEVEL = 'proof'
 R = 'structures::paging::mapper::recursive_page_table::'
-RPT = R + 'RecursivePageTable'
+RPT = 'structures::paging::mapper::RecursivePageTable'
 PTI = 'structures::paging::page_table::PageTableIndex'
 PTE = 'structures::paging::page_table::PageTableEntry'
 TBL = 'structures::paging::page_table::PageTable'
@@ -141,7 +141,7 @@ def run(chk):
     chk.guard('recursive-address', 'private address builders', ptrs)
 
     def ctor():
-        fn_ = RPT + "::<'a>::new"
+        fn_ = RPT + "::<'_>::new"
         if fn_ not in I.fn:
             c = [n for n in I.fn if n.startswith(RPT) and n.endswith('::new')]
             fn_ = c[0]
@@ -219,5 +219,5 @@ def run(chk):
         finally:
             I.addr_override = {}
     chk.guard('constructor', 'RecursivePageTable::new', ctor)
-    chk.guard('asm-options', 'CR3 read', lambda: asm_not_pure(chk, chk.I, 'asm-options', ['src/registers/control.rs'], 7))
+    chk.guard('asm-options', 'CR3 read', lambda: asm_not_pure(chk, chk.I, 'asm-options', ['src/registers/control.rs'], 1))
     chk.floor('obligations', len(chk.obs), 14)
